@@ -1,5 +1,6 @@
 import EgVerif.Proofs.Pipeline
 import EgVerif.Gen.FactsC02
+import EgVerif.Proofs.PipelineIR
 /-!
 # C02 — the pipeline executes filters in flow order with forward-only jumpIf and END
 
@@ -235,6 +236,72 @@ theorem end_in_main_stops_after (res : Nat → String) (p : Pipe) (a : Pipe)
   unfold handleBA
   simp [thenFlow, he]
 
+/-! ## Stats order = execution order; reused filter instances; END inside before / after -/
+
+/-- **Stats order = execution order, across all three flows.** In the one stats list that
+`HandleWithBeforeAfter` (hence `GlobalFilter.Handle`) serializes into the tag, the k-th entry is the
+k-th filter invocation of the request (`res k`), whatever the flows are: before, main and after append in
+this order and each flow appends in execution order (`forward_only`). For every flow, valid or not. -/
+theorem stats_order_is_execution_order (res : Nat → String) (p : Pipe) (before after : Option Pipe) :
+    ∀ k (hk : k < (handleBA res p before after).2.1.length),
+      ((handleBA res p before after).2.1)[k].result = res k := by
+  unfold handleBA
+  exact thenFlow_statsInOrder res _ after (thenFlow_statsInOrder res _ (some p)
+    (thenFlow_statsInOrder res _ before (fun k hk => absurd hk (by simp))))
+
+/-- **A filter referenced by several flow nodes is one instance.** Two invocations whose flow nodes name
+the same filter ran the same bound instance of the same kind — whatever their aliases and namespaces are. -/
+theorem reused_filter_same_instance (kind : String → String) (res : Nat → String) (flow : List Node)
+    (stats : List Stat) :
+    ∃ new, (doHandle kind res flow stats).2.1 = stats ++ new ∧
+      ∀ s1 ∈ new, ∀ s2 ∈ new, ∀ n1 n2, flow[s1.idx]? = some n1 → flow[s2.idx]? = some n2 →
+        n1.filter = n2.filter → s1.filter = s2.filter ∧ s1.kind = s2.kind := by
+  obtain ⟨new, h⟩ := doHandle_trace kind res flow stats
+  refine ⟨new, h.eq, fun s1 h1 s2 h2 n1 n2 e1 e2 hf => ?_⟩
+  obtain ⟨_, m1, hm1, _, _, hf1, hk1, _⟩ := h.statOf s1 h1
+  obtain ⟨_, m2, hm2, _, _, hf2, hk2, _⟩ := h.statOf s2 h2
+  simp only [Nat.sub_zero] at hm1 hm2
+  rw [e1] at hm1; rw [e2] at hm2
+  cases hm1; cases hm2
+  exact ⟨by rw [hf1, hf2, hf], by rw [hk1, hk2, hf]⟩
+
+/-- **`END` as the first node of a GlobalFilter's before flow stops everything**: no filter of the before
+flow, the main pipeline or the after flow runs; the result is empty. -/
+theorem gf_end_first_in_before_stops_all (res : Nat → String) (main : Pipe) (before after : PSpec)
+    (n : Node) (rest : List Node) (hf : before.flow = n :: rest) (hn : n.filter = END) :
+    gfHandle res main before after = ("", [], true) := by
+  have hne : ¬ before.flow = [] := by rw [hf]; exact List.cons_ne_nil _ _
+  have hd : doHandle (mkPipe before).kind res (mkPipe before).flow [] = ("", [], true) := by
+    simp only [mkPipe, effFlow, hf, doHandle, List.cons_ne_nil, if_false]
+    unfold loop
+    simp [hn]
+  unfold gfHandle handleBA
+  simp only [gfPipe, hne, if_false, thenFlow, hd, Bool.true_eq_false]
+  by_cases ha : after.flow = [] <;> simp [ha]
+
+/-- **`END` as the first node of the after flow** ends the request without running anything more: the
+stats stay those of the main pipeline. The returned result is the after flow's own (empty) result —
+every `doHandle` starts from `result = ""` — which for a validated main flow that did not end is what the
+main flow carried anyway (`open_flow_result_empty`). -/
+theorem gf_end_first_in_after_keeps_main (res : Nat → String) (main : Pipe) (after : PSpec)
+    (n : Node) (rest : List Node) (hf : after.flow = n :: rest) (hn : n.filter = END)
+    (hopen : (doHandle main.kind res main.flow []).2.2 = false) :
+    gfHandle res main ⟨[], []⟩ after =
+      ("", (doHandle main.kind res main.flow []).2.1, true) := by
+  have hne : ¬ after.flow = [] := by rw [hf]; exact List.cons_ne_nil _ _
+  unfold gfHandle handleBA
+  have hd : ∀ st, doHandle (kindOf after.filters) res (n :: rest) st = ("", st, true) := by
+    intro st
+    simp only [doHandle]
+    unfold loop
+    simp [hn]
+  simp only [gfPipe, hne, if_false, if_true, thenFlow, hopen, mkPipe, effFlow, hf, List.cons_ne_nil]
+  generalize doHandle main.kind res main.flow [] = o at hopen ⊢
+  obtain ⟨r, st, e⟩ := o
+  simp only at hopen
+  subst hopen
+  simp [hd]
+
 /-! ## Validation is needed; the repaired `filterAlias` is needed -/
 
 private def kindsEx : List (String × List String) := [("K", ["r1", "r2"])]
@@ -309,6 +376,99 @@ theorem source_facts :
     Gen.FactsC02.gfHandleCallsHWBA = 1 ∧ Gen.FactsC02.gfValidateCalls = 2 := by
   decide
 
+/-! ## Regenerated tie by translation (notes/IR.md, `harness/factextract/facts_c02_ir.go`)
+
+`Gen.FactsC02IR.*IR` are translated on every run from the current bodies of the Go functions by the
+go/ast micro-translator; each is the model function on every input. Proofs (same names, namespace
+`EgVerif.Pipeline`): `Proofs/PipelineIR.lean`. A changed comparison, branch, constant, loop exit or
+counter update in the source changes the generated definition and breaks the theorem of that function. -/
+
+/-- `FlowNode.filterAlias` (as repaired: the alias of an `END` node is ignored). -/
+theorem filterAlias_regenerated_from_source (n : Node) :
+    Gen.FactsC02IR.extractionFailed = false ∧ Gen.FactsC02IR.filterAliasIR n = n.name :=
+  ⟨by decide, Pipeline.filterAlias_regenerated_from_source n⟩
+
+/-- `isBuiltInFilter` (the reserved-name test of `Spec.Validate`). -/
+theorem isBuiltInFilter_regenerated_from_source (name : String) :
+    Gen.FactsC02IR.extractionFailed = false ∧ Gen.FactsC02IR.isBuiltInFilterIR name = decide (name = END) :=
+  ⟨by decide, Pipeline.isBuiltInFilter_regenerated_from_source name⟩
+
+/-- `Context.UseNamespace` (`""` ⇒ `DEFAULT`), whatever namespace was active before. -/
+theorem useNamespace_regenerated_from_source (ns0 ns : String) :
+    Gen.FactsC02IR.extractionFailed = false ∧ Gen.FactsC02IR.useNamespaceIR ns0 ns = useNs ns :=
+  ⟨by decide, Pipeline.useNamespace_regenerated_from_source ns0 ns⟩
+
+/-- `Pipeline.doHandle`: the translated loop (`result, next, sawEnd`, the stats slice, `continue` / `break`,
+the `JumpIf` lookup, one `UseNamespace` + one filter invocation + one stat per executed node) is the
+model's `doHandle`, for every kind table, every result assignment, every flow, every stats prefix and
+every namespace active on entry. -/
+theorem doHandle_regenerated_from_source (kind : String → String) (res : Nat → String) (ns0 : String)
+    (flow : List Node) (stats : List Stat) :
+    Gen.FactsC02IR.extractionFailed = false ∧
+      Gen.FactsC02IR.doHandleIR kind res ns0 flow stats = doHandle kind res flow stats :=
+  ⟨by decide, Pipeline.doHandle_regenerated_from_source kind res ns0 flow stats⟩
+
+/-- `Pipeline.Handle`: returned result and the stats behind the tag. -/
+theorem handle_regenerated_from_source (res : Nat → String) (p : Pipe) :
+    Gen.FactsC02IR.extractionFailed = false ∧ Gen.FactsC02IR.handleIR res p = handle res p :=
+  ⟨by decide, Pipeline.handle_regenerated_from_source res p⟩
+
+/-- `Pipeline.HandleWithBeforeAfter`: returned result and the stats behind the tag are those of the
+model's `handleBA` (before unless nil; main unless ended; after unless ended or nil). -/
+theorem handleWithBeforeAfter_regenerated_from_source (res : Nat → String) (p : Pipe)
+    (before after : Option Pipe) :
+    Gen.FactsC02IR.extractionFailed = false ∧
+      Gen.FactsC02IR.handleBAIR res p before after =
+        ((handleBA res p before after).1, (handleBA res p before after).2.1) :=
+  ⟨by decide, Pipeline.handleWithBeforeAfter_regenerated_from_source res p before after⟩
+
+/-- `Spec.ValidateJumpIf(specs)`: the translated backward loop (index `len-1 … 0`, the `validTargets`
+map as an association list, the inner `range node.JumpIf`, the three `panic`s, `validTargets[alias]++`)
+returns normally exactly when the model's `scan` succeeds — for every `specs` table. -/
+theorem validateJumpIf_regenerated_from_source (kinds : List (String × List String)) (s : PSpec)
+    (specs : List (String × String)) :
+    Gen.FactsC02IR.extractionFailed = false ∧
+      Gen.FactsC02IR.validateJumpIfIR kinds s specs = (scan specs kinds s.flow).isSome :=
+  ⟨by decide, Pipeline.validateJumpIf_regenerated_from_source kinds s specs⟩
+
+/-- Go iterates `node.JumpIf` (a map) in an unspecified order; the translated inner loop gives the same
+answer for every order of the entries, whenever the counter represents a multiset of names (which the
+outer loop maintains). -/
+theorem validateJumpIf_order_independent (kinds : List (String × List String)) (s : PSpec)
+    (specs : List (String × String)) (m : List (String × Int)) (vt : List String) (hm : CtrRel m vt)
+    (node : Node) (spec : Option String) (results : List String) (l1 l2 : List (String × String))
+    (hp : l1.Perm l2) :
+    Gen.FactsC02IR.validateJumpIfIR_loop2 kinds s specs m node spec results l1 =
+      Gen.FactsC02IR.validateJumpIfIR_loop2 kinds s specs m node spec results l2 :=
+  Pipeline.validateJumpIf_regenerated_from_source_loop_perm kinds s specs m vt hm node spec results l1 l2 hp
+
+/-- `Spec.Validate`: the translated function (filter loop with `filters.NewSpec`, reserved and duplicate
+name checks building the `specs` map, `ValidateJumpIf`, resilience loop; `panic` = rejected through the
+deferred `recover`) accepts exactly when the model's `validate` accepts and every resilience entry is
+accepted by `resilience.NewPolicy`. -/
+theorem validate_regenerated_from_source (kinds : List (String × List String)) (s : PSpec) (resil : List Bool) :
+    Gen.FactsC02IR.extractionFailed = false ∧
+      Gen.FactsC02IR.validateIR kinds s resil = (validate kinds s && resil.all id) :=
+  ⟨by decide, Pipeline.validate_regenerated_from_source kinds s resil⟩
+
+/-- `GlobalFilter.Handle`: panics (`none`) iff the handler is not a pipeline; otherwise it is
+`HandleWithBeforeAfter` with the loaded before / after pipelines — with the pipelines `reload` stores
+(`gfPipe`), the model's `gfHandle`. -/
+theorem gfHandle_regenerated_from_source (res : Nat → String) (handler bp ap : Option Pipe)
+    (main : Pipe) (before after : PSpec) :
+    Gen.FactsC02IR.extractionFailed = false ∧
+      Gen.FactsC02IR.gfHandleIR res handler bp ap = handler.map (fun p => handleBA res p bp ap) ∧
+      Gen.FactsC02IR.gfHandleIR res (some main) (gfPipe before) (gfPipe after) =
+        some (gfHandle res main before after) :=
+  ⟨by decide, Pipeline.gfHandle_regenerated_from_source res handler bp ap,
+    Pipeline.gfHandle_regenerated_from_source_model res main before after⟩
+
+/-- `globalfilter.Spec.Validate`. -/
+theorem gfValidate_regenerated_from_source (kinds : List (String × List String)) (before after : PSpec) :
+    Gen.FactsC02IR.extractionFailed = false ∧
+      Gen.FactsC02IR.gfValidateIR kinds before after = gfValidate kinds before after :=
+  ⟨by decide, Pipeline.gfValidate_regenerated_from_source kinds before after⟩
+
 /-! ## Non-vacuity: concrete validated specs meeting the hypotheses -/
 
 /-- validator → adaptor → proxy with a jump over the adaptor *and over an END node*, an `END` mapping,
@@ -333,6 +493,31 @@ example : (handle (fun _ => "") (mkPipe okSpec)).2.map (fun s => s.idx) = [0, 1]
 example : (handleBA (fun _ => "zz") (mkPipe okSpec) (some (mkPipe okSpec)) (some (mkPipe okSpec))).1 = "zz" ∧
     (handleBA (fun _ => "zz") (mkPipe okSpec) (some (mkPipe okSpec)) (some (mkPipe okSpec))).2.1.length = 1 := by
   decide
+
+/-- the regenerated definitions compute on the same concrete spec: `Validate` accepts it (and rejects it
+when a resilience entry is bad, or when the flow has a duplicated target); the translated loop visits
+nodes 0, 3, 4 on `r2`. -/
+example : Gen.FactsC02IR.validateIR kindsEx okSpec [true] = true ∧
+    Gen.FactsC02IR.validateIR kindsEx okSpec [true, false] = false ∧
+    Gen.FactsC02IR.validateIR kindsEx dupSpec [] = false ∧
+    Gen.FactsC02IR.validateJumpIfIR kindsEx okSpec okSpec.filters = true := by decide
+
+example : (Gen.FactsC02IR.doHandleIR (kindOf okSpec.filters) (fun k => if k = 0 then "r2" else "") "zz"
+    okSpec.flow []).2.1.map (fun s => (s.idx, s.name, s.ns)) =
+    [(0, "v", "DEFAULT"), (3, "px", "n2"), (4, "again", "DEFAULT")] := by decide
+
+example : Gen.FactsC02IR.gfHandleIR (fun _ => "") none none none = none := by decide
+
+/-- reuse + stats order on the concrete spec: filter `a` runs at node 1 and (alias `again`) at node 4 —
+same instance `a`, different stat names; the tag order is the execution order. -/
+example : (handle (fun k => if k = 2 then "zz" else "") (mkPipe okSpec)).2.map (fun s => (s.idx, s.name, s.filter)) =
+    [(0, "v", "v"), (1, "a", "a")] ∧
+    (handle (fun k => if k = 0 then "r2" else "") (mkPipe okSpec)).2.map (fun s => (s.name, s.filter, s.kind)) =
+    [("v", "v", "K"), ("px", "p", "K"), ("again", "a", "K")] := by decide
+
+/-- END first in a GlobalFilter's before flow: nothing runs -/
+example : gfHandle (fun _ => "r1") (mkPipe okSpec) ⟨[("v", "K")], [⟨"END", "", "", []⟩, ⟨"v", "", "", []⟩]⟩ ⟨[], []⟩ =
+    ("", [], true) := by decide
 
 /-- a spec without a flow: one node per filter in spec order -/
 example : (handle (fun _ => "") (mkPipe ⟨[("v", "K"), ("a", "K")], []⟩)).2.map (fun s => s.filter) = ["v", "a"] := by
